@@ -644,6 +644,14 @@ HasSetLike(T) ==
     [] T.k = "seqof" -> HasSetLike(T.of)
     [] T.k = "choice" -> \E i \in 1..Len(T.alts) : HasSetLike(T.alts[i].t)
     [] OTHER -> FALSE
+RECURSIVE NoImplicit(_)
+NoImplicit(T) ==     \* the encoding of T is self-describing: universal tags and EXPLICIT tagging only, no ANY
+  /\ T.k # "any"
+  /\ \A i \in 1..Len(T.tags) : T.tags[i].m = "E"
+  /\ CASE T.k \in {"seq", "set"} -> \A i \in 1..Len(T.comps) : NoImplicit(T.comps[i].t)
+       [] T.k \in {"seqof", "setof"} -> NoImplicit(T.of)
+       [] T.k = "choice" -> \A i \in 1..Len(T.alts) : NoImplicit(T.alts[i].t)
+       [] OTHER -> TRUE
 CountIn(s, x) == Cardinality({i \in 1..Len(s) : s[i] = x})
 BagEq(a, b) == Len(a) = Len(b) /\ \A i \in 1..Len(a) : CountIn(a, a[i]) = CountIn(b, a[i])
 =============================================================================
